@@ -544,6 +544,19 @@ class Emitter:
         ks = kids(n)
         init = ks[-1] if ks else None
         cty = self.decl_ctype(ti)
+        if ti['kind'] == 'iter':
+            # iterator local: an index into its container
+            self.fire('G7')
+            if init is None:
+                raise ExtractError('iterator without initialiser')
+            tgt = strip_all(init)
+            while tgt['kind'] == 'CXXConstructExpr' and len(kids(tgt)) == 1:
+                tgt = strip_all(kids(tgt)[0])
+            vec, txt = self.iter_value(tgt)
+            if vec is None:
+                raise ExtractError('cannot tell which container iterator %s points into' % name)
+            self.opts.setdefault('iter_params', {})[n['id']] = (vec, name)
+            return '%ssize_t %s = %s;' % ('const ' if ti['const'] else '', name, txt)
         if ti['ref']:
             # reference local: becomes a pointer, uses become (*name)
             self.fire('G5')
@@ -796,7 +809,30 @@ class Emitter:
         if name == 'distance':
             self.fire('G7')
             return self.iter_distance(args[0], args[1])
-        if name in ('partial_sum', 'lower_bound', 'upper_bound', 'copy', 'stable_sort', 'iota', 'transform', 'getline'):
+        if name == 'partial_sum':
+            # std::partial_sum(first, last, d_first): assumed contract = left fold (vp_partial_sum in the prelude)
+            self.fire('G7')
+            va, ia = self.iter_parts(args[0])
+            vb, ib = self.iter_parts(args[1])
+            vd, idd = self.iter_parts(args[2])
+            if va != vb:
+                raise ExtractError('partial_sum over two containers')
+            return 'vp_partial_sum(&(%s), %s, %s, &(%s), %s)' % (va, ia, ib, vd, idd)
+        if name in ('lower_bound', 'upper_bound'):
+            self.fire('G7')
+            va, ia = self.iter_parts(args[0])
+            vb, ib = self.iter_parts(args[1])
+            if va != vb:
+                raise ExtractError('%s over two containers' % name)
+            self.last_iter_vec = va
+            return 'vp_%s(&(%s), %s, %s, %s)' % (name, va, ia, ib, self.emit(args[2]))
+        if name == 'copy':
+            self.fire('G7')
+            va, ia = self.iter_parts(args[0])
+            vb, ib = self.iter_parts(args[1])
+            vd, idd = self.iter_parts(args[2])
+            return 'vp_copy_range(&(%s), %s, %s, &(%s), %s)' % (va, ia, ib, vd, idd)
+        if name in ('stable_sort', 'iota', 'transform', 'getline'):
             raise ExtractError('std::%s needs a recipe-level handler' % name)
         # a hep:: free function
         ret, ptypes, _ = fn_param_types(fqt)
@@ -835,6 +871,24 @@ class Emitter:
         if k == 'DeclRefExpr' and n['referencedDecl']['name'] in self.opts.get('iter_names', {}):
             return self.opts['iter_names'][n['referencedDecl']['name']]
         raise ExtractError('unsupported iterator expression %s' % k)
+
+    def iter_value(self, n):
+        """iterator-valued expression -> (container text, index text)"""
+        n = strip_all(n)
+        while n['kind'] in ('CXXConstructExpr', 'ParenExpr') and len(kids(n)) == 1:
+            n = strip_all(kids(n)[0])
+        if n['kind'] == 'CallExpr':
+            self.last_iter_vec = None
+            txt = self.emit(n)
+            return self.last_iter_vec, txt
+        if n['kind'] == 'ConditionalOperator':
+            c, a, b = kids(n)
+            va, ta = self.iter_value(a)
+            vb, tb = self.iter_value(b)
+            if va != vb:
+                raise ExtractError('conditional between iterators of different containers')
+            return va, '((%s) ? (%s) : (%s))' % (self.emit(c), ta, tb)
+        return self.iter_parts(n)
 
     def iter_distance(self, a, b):
         va, ia = self.iter_parts(a)
@@ -991,7 +1045,8 @@ class Emitter:
             # ghost code at the end of the body must also run on `continue`
             inner = re.sub(r'\bcontinue\s*;', '{ goto vp_cont_%s_%d; }' % (fn, k), inner)
             be = 'vp_cont_%s_%d: ;\n%s' % (fn, k, be)
-        out = header + '\n' + (lc if lc else '/* VP_LOOP %s %d: no loop contract */' % (fn, k)) + '\n{\n' + bb + inner + be + '\n}'
+        pre = self.spec.get(('before', fn, k), '')
+        out = pre + header + '\n' + (lc if lc else '/* VP_LOOP %s %d: no loop contract */' % (fn, k)) + '\n{\n' + bb + inner + be + '\n}'
         self.loops.append((fn, k, bool(lc)))
         return out
 
